@@ -49,7 +49,9 @@ pub fn local_decls() -> Vec<(u32, we::ValType)> { (0..NLOCALS as u8).map(|c| (1,
 
 /// The universe module, built in walrus's canonical order (types sorted, imports first,
 /// functions by decreasing size, locals grouped by type in ValType order).
-pub fn universe(p: Profile, test_body: &[we::Instruction]) -> Vec<u8> {
+pub fn universe(p: Profile, test_body: &[we::Instruction]) -> Vec<u8> { universe_x(p, test_body, true) }
+/// `export_all = false`: only the test function is exported, so that everything else is kept by the GC pass only if the test body refers to it
+pub fn universe_x(p: Profile, test_body: &[we::Instruction], export_all: bool) -> Vec<u8> {
     let mut m = we::Module::new();
     let mut t = we::TypeSection::new();
     for (ps, rs) in base_types() { t.function(ps.iter().map(|c| vt(*c)), rs.iter().map(|c| vt(*c))); }
@@ -70,10 +72,12 @@ pub fn universe(p: Profile, test_body: &[we::Instruction]) -> Vec<u8> {
     g.global(we::GlobalType { val_type: we::ValType::F64, mutable: true, shared: false }, &we::ConstExpr::f64_const(4.0));
     m.section(&g);
     let mut e = we::ExportSection::new();
+    if export_all {
     for k in 0..4 { e.export(&format!("f{}", k), we::ExportKind::Func, k); }
     for k in 0..3 { e.export(&format!("t{}", k), we::ExportKind::Table, k); }
     for k in 0..mems.len() as u32 { e.export(&format!("m{}", k), we::ExportKind::Memory, k); }
     for k in 0..4 { e.export(&format!("g{}", k), we::ExportKind::Global, k); }
+    } else { e.export("f1", we::ExportKind::Func, 1); }
     m.section(&e);
     let mut el = we::ElementSection::new();
     for _ in 0..4 { el.passive(we::Elements::Functions(&[0, 1])); }
